@@ -282,24 +282,26 @@ def parse_kani_output(out: str, harnesses: list[Harness]) -> list[HarnessResult]
                 r.failed_checks.append({"property": "", "description": fm.group(1), "location": f"{fm.group(2)}:{fm.group(3)} in {fm.group(4)}"})
         r.stubs = re.findall(r"- Stub: (.*)", sec)
         low = sec.lower()
+        mfail = re.search(r"\*\* (\d+) of (\d+) failed", sec)
         if "VERIFICATION:- SUCCESSFUL" in sec:
             r.status = "success"
+        elif "CBMC timed out" in sec or "timed out" in low:
+            r.status = "timeout"
+        elif "out of memory" in low or "CBMC failed" in sec or mfail is None:
+            r.status = "error"      # tool failure: never a violation
         elif "VERIFICATION:- FAILED" in sec:
             real = [c for c in r.failed_checks if "unwinding assertion" not in c["description"]]
-            if "timed out" in low or "timeout" in low:
-                r.status = "timeout"
-            elif not real and ("unwinding assertion" in sec):
+            unwind_failed = any("unwinding assertion" in c["description"] for c in r.failed_checks)
+            if unwind_failed:
+                # other failures may be artefacts of truncation: the bound is too small, not a violation
                 r.status = "unwind"
             elif real:
-                # when unwinding assertions fail too, the other failures may be artefacts of truncation
-                r.status = "failure" if "unwinding assertion" not in sec else "unwind"
-                r.failed_checks = real
-            else:
                 r.status = "failure"
-        elif "timed out" in low or "timeout" in low:
-            r.status = "timeout"
-        elif "out of memory" in low or "cbmc failed" in low or "killed" in low:
-            r.status = "error"
+                r.failed_checks = real
+            elif int(mfail.group(1)) > 0:
+                r.status = "failure"
+            else:
+                r.status = "error"
         pm = re.search(r"Concrete playback unit test for `[^`]*`:\n```\n(.*?)```", sec, re.S)
         if pm:
             r.playback = pm.group(1)
